@@ -20,6 +20,8 @@ def one(i):
         if tok.startswith("exit="):
             ex = int(tok[5:])
     kind = "missed" if ex == 0 else "failing-input" if ex == 1 and "no-failing-input-found" not in line else "no-failing-input-found" if ex == 1 else "infra"
+    if os.environ.get("SEED_MATRIX_NO_RECORD"):      # e.g. a re-run with another VERIF_SEED: report only
+        return i, kind
     if "first_detection" not in m and "detection" in m:
         m["first_detection"] = dict(outcome=m["detection"].get("outcome"), note="outcome of the check as it stood when the change was first tried")
     m["detection"] = dict(check=m.get("property"), exit=ex, outcome=kind, line=line[-300:], how="tools/try_seeded.sh (patch applied to a scratch copy of /repo's working tree, quick tier, VERIF_SEED=0)")
@@ -40,6 +42,8 @@ with cf.ThreadPoolExecutor(jobs) as ex:
 for i, k in res:
     print(i, k)
 
+if os.environ.get("SEED_MATRIX_NO_RECORD"):
+    sys.exit(0)
 rows = []
 for i in sorted(os.listdir(os.path.join(V, "seeded"))):
     mp = os.path.join(V, "seeded", i, "meta.json")
